@@ -1390,8 +1390,9 @@ class P2PRechunk(ArrayExpr):
         new = self.chunks
         if any(math.isnan(c) for dim in (*old, *new) for c in dim):
             return TransferBytes(math.nan, math.nan)
-        lo, _ = _rechunk_stage_transfer(old, new, itemsize)
-        return TransferBytes(lo, self.array.nbytes)
+        lo, hi = _rechunk_stage_transfer(old, new, itemsize)
+        # nothing to shuffle (same chunks, pure splits) means nothing on the wire
+        return TransferBytes(lo, self.array.nbytes if hi else 0)
 
     def _simplify_down(self):
         # P2PRechunk is a lowered form - don't apply further simplifications
